@@ -164,15 +164,22 @@ func init() {
 		return x
 	}
 	libSpecs[d+"Mul"] = func(c *callCtx) Val {
-		return c.ret(relRound(c, c.e().vc.define("prod", "Int", app("*", c.args[0].S, c.args[1].S))))
+		e := c.e()
+		q := e.vc.defineAlways("dm", "Int", app("decmul", c.args[0].S, c.args[1].S))
+		e.vc.assume(app("is_round_he", app("*", c.args[0].S, c.args[1].S), q))
+		return c.ret(q)
 	}
 	libSpecs[d+"MulTruncate"] = func(c *callCtx) Val {
 		return c.def("dm", app("tdiv", app("*", c.args[0].S, c.args[1].S), "1000000000000000000"))
 	}
 	libSpecs[d+"Quo"] = func(c *callCtx) Val {
 		c.obl("panic.lib", "Dec.Quo_by_zero", not(eq(c.args[1].S, "0")))
-		x := relTdiv(c, app("*", c.args[0].S, "1000000000000000000000000000000000000"), c.args[1].S)
-		return c.ret(relRound(c, x))
+		e := c.e()
+		a, b := c.args[0].S, c.args[1].S
+		x := e.vc.defineAlways("dqx", "Int", app("decquo_x", a, b))
+		q := e.vc.defineAlways("dq", "Int", app("decquo", a, b))
+		e.vc.assume(implies(not(eq(b, "0")), and(app("is_tdiv", app("*", a, "1000000000000000000000000000000000000"), b, x), app("is_round_he", x, q))))
+		return c.ret(q)
 	}
 	libSpecs[d+"QuoTruncate"] = func(c *callCtx) Val {
 		c.obl("panic.lib", "Dec.Quo_by_zero", not(eq(c.args[1].S, "0")))
@@ -186,12 +193,18 @@ func init() {
 		return c.def("dq", app("tdiv", c.args[0].S, c.args[1].S))
 	}
 	libSpecs[d+"QuoInt64"] = libSpecs[d+"QuoInt"]
-	libSpecs[d+"TruncateInt"] = func(c *callCtx) Val { return c.ret(relTdiv(c, c.args[0].S, "1000000000000000000")) }
+	truncOf := func(c *callCtx, a string) string {
+		e := c.e()
+		t := e.vc.defineAlways("dt", "Int", app("dectrunc", a))
+		e.vc.assume(app("is_tdiv", a, "1000000000000000000", t))
+		return t
+	}
+	libSpecs[d+"TruncateInt"] = func(c *callCtx) Val { return c.ret(truncOf(c, c.args[0].S)) }
 	libSpecs[d+"TruncateDec"] = func(c *callCtx) Val {
-		return c.def("t", app("dec_of_int", relTdiv(c, c.args[0].S, "1000000000000000000")))
+		return c.def("t", app("dec_of_int", truncOf(c, c.args[0].S)))
 	}
 	libSpecs[d+"TruncateInt64"] = func(c *callCtx) Val {
-		t := relTdiv(c, c.args[0].S, "1000000000000000000")
+		t := truncOf(c, c.args[0].S)
 		c.obl("panic.lib", "Dec.TruncateInt64_out_of_range", inRange(t, types.Typ[types.Int64]))
 		return c.ret(t)
 	}
